@@ -47,6 +47,10 @@ Fixpoint tterms_of (e : eqn) : option (list tterm) :=
   | t :: r => match tterm_of t, tterms_of r with Some x, Some xs => Some (x :: xs) | _, _ => None end
   end.
 
+(* the Jacobian writes thermal terms with a bare star ('*'.join), the right-hand side with blanks around the first one *)
+Definition unspaced (ts : list tterm) : list tterm :=
+  map (fun t => {| tt_neg := tt_neg t; tt_arr := tt_arr t; tt_idx := tt_idx t; tt_spaced := false; tt_vars := tt_vars t |}) ts.
+
 (** the temperature row is wrapped:  f"(gamma - 1.0) * ( {rhs} ) / kerg / npar" *)
 Definition wrap_pre_txt : txt := tx "(gamma - 1.0) * ( ".
 Definition wrap_post_txt : txt := tx " ) / kerg / npar".
